@@ -45,6 +45,13 @@ type (
 	DirEntry = os.DirEntry
 )
 
+func errFor() error {
+	if s := current.Load(); s != nil && !s.dead.Load() {
+		return ErrInjected
+	}
+	return ErrCrashed
+}
+
 // ErrCrashed is returned by every effect attempted after the crash.
 var ErrCrashed = errors.New("vos: process crashed")
 
@@ -71,14 +78,17 @@ type Session struct {
 	// number of 512-byte shares after the header: the cut a size-based validity check is most
 	// likely to accept. SizeOf must return the current size of the file.
 	TearMod, TearRem int
-	Count            map[int]int
-	Trace            []Effect
-	threads          map[uint64]int
-	dead             atomic.Bool
-	parked           []chan struct{}
-	Torn             bool
-	open             map[*File]string
-	Base             string // paths are recorded relative to this directory
+	// Fail, when set, is asked before every effect (with the session lock held); a non-nil error
+	// makes the effect not happen and is returned to the caller (an I/O fault, not a crash).
+	Fail    func(thread int, kind, rel string) error
+	Count   map[int]int
+	Trace   []Effect
+	threads map[uint64]int
+	dead    atomic.Bool
+	parked  []chan struct{}
+	Torn    bool
+	open    map[*File]string
+	Base    string // paths are recorded relative to this directory
 }
 
 var current atomic.Pointer[Session]
@@ -182,11 +192,21 @@ func effect(kind, path string, n int) (apply bool, torn int) {
 		<-c
 		return false, 0
 	}
+	if s.Fail != nil {
+		if err := s.Fail(th, kind, rel); err != nil {
+			s.Trace = append(s.Trace, Effect{th, "FAULT-" + kind, rel, n})
+			s.mu.Unlock()
+			return false, -1
+		}
+	}
 	s.Count[th]++
 	s.Trace = append(s.Trace, Effect{th, kind, rel, n})
 	s.mu.Unlock()
 	return true, 0
 }
+
+// ErrInjected is the error returned for an effect refused by Session.Fail.
+var ErrInjected = errors.New("vos: injected I/O fault")
 
 // parkLast parks the calling goroutine on the channel registered last by effect (torn write path).
 func parkLast() {
@@ -230,7 +250,7 @@ func wrap(f *os.File, path string, writable bool, err error) (*File, error) {
 func OpenFile(name string, flag int, perm FileMode) (*File, error) {
 	if flag&(O_CREATE|O_TRUNC|O_APPEND) != 0 {
 		if ok, _ := effect("create", name, 0); !ok {
-			return nil, &fs.PathError{Op: "open", Path: name, Err: ErrCrashed}
+			return nil, &fs.PathError{Op: "open", Path: name, Err: errFor()}
 		}
 	}
 	f, err := os.OpenFile(name, flag, perm)
@@ -253,7 +273,7 @@ func (f *File) Write(b []byte) (int, error) {
 			_, _ = f.File.Write(b[:torn])
 			parkLast()
 		}
-		return 0, &fs.PathError{Op: "write", Path: f.path, Err: ErrCrashed}
+		return 0, &fs.PathError{Op: "write", Path: f.path, Err: errFor()}
 	}
 	return f.File.Write(b)
 }
@@ -267,21 +287,21 @@ func (f *File) WriteAt(b []byte, off int64) (int, error) {
 			_, _ = f.File.WriteAt(b[:torn], off)
 			parkLast()
 		}
-		return 0, &fs.PathError{Op: "write", Path: f.path, Err: ErrCrashed}
+		return 0, &fs.PathError{Op: "write", Path: f.path, Err: errFor()}
 	}
 	return f.File.WriteAt(b, off)
 }
 
 func (f *File) Truncate(size int64) error {
 	if ok, _ := effect("truncate", f.path, int(size)); !ok {
-		return &fs.PathError{Op: "truncate", Path: f.path, Err: ErrCrashed}
+		return &fs.PathError{Op: "truncate", Path: f.path, Err: errFor()}
 	}
 	return f.File.Truncate(size)
 }
 
 func (f *File) Sync() error {
 	if ok, _ := effect("sync", f.path, 0); !ok {
-		return &fs.PathError{Op: "sync", Path: f.path, Err: ErrCrashed}
+		return &fs.PathError{Op: "sync", Path: f.path, Err: errFor()}
 	}
 	return f.File.Sync()
 }
@@ -300,7 +320,7 @@ func (f *File) Close() error {
 	}
 	err := f.File.Close()
 	if !ok {
-		return &fs.PathError{Op: "close", Path: f.path, Err: ErrCrashed}
+		return &fs.PathError{Op: "close", Path: f.path, Err: errFor()}
 	}
 	return err
 }
@@ -309,14 +329,14 @@ func (f *File) Close() error {
 
 func Link(oldname, newname string) error {
 	if ok, _ := effect("link", newname, 0); !ok {
-		return &os.LinkError{Op: "link", Old: oldname, New: newname, Err: ErrCrashed}
+		return &os.LinkError{Op: "link", Old: oldname, New: newname, Err: errFor()}
 	}
 	return os.Link(oldname, newname)
 }
 
 func Symlink(oldname, newname string) error {
 	if ok, _ := effect("symlink", newname, 0); !ok {
-		return &os.LinkError{Op: "symlink", Old: oldname, New: newname, Err: ErrCrashed}
+		return &os.LinkError{Op: "symlink", Old: oldname, New: newname, Err: errFor()}
 	}
 	return os.Symlink(oldname, newname)
 }
@@ -327,14 +347,14 @@ func Remove(name string) error {
 		return os.Remove(name)
 	}
 	if ok, _ := effect("remove", name, 0); !ok {
-		return &fs.PathError{Op: "remove", Path: name, Err: ErrCrashed}
+		return &fs.PathError{Op: "remove", Path: name, Err: errFor()}
 	}
 	return os.Remove(name)
 }
 
 func Rename(oldpath, newpath string) error {
 	if ok, _ := effect("rename", newpath, 0); !ok {
-		return &os.LinkError{Op: "rename", Old: oldpath, New: newpath, Err: ErrCrashed}
+		return &os.LinkError{Op: "rename", Old: oldpath, New: newpath, Err: errFor()}
 	}
 	return os.Rename(oldpath, newpath)
 }
@@ -344,7 +364,7 @@ func Mkdir(name string, perm FileMode) error {
 		return os.Mkdir(name, perm)
 	}
 	if ok, _ := effect("mkdir", name, 0); !ok {
-		return &fs.PathError{Op: "mkdir", Path: name, Err: ErrCrashed}
+		return &fs.PathError{Op: "mkdir", Path: name, Err: errFor()}
 	}
 	return os.Mkdir(name, perm)
 }
@@ -354,7 +374,7 @@ func MkdirAll(path string, perm FileMode) error {
 		return nil
 	}
 	if ok, _ := effect("mkdir", path, 0); !ok {
-		return &fs.PathError{Op: "mkdir", Path: path, Err: ErrCrashed}
+		return &fs.PathError{Op: "mkdir", Path: path, Err: errFor()}
 	}
 	return os.MkdirAll(path, perm)
 }
@@ -373,7 +393,7 @@ func WriteFile(name string, data []byte, perm FileMode) error {
 
 func RemoveAll(path string) error {
 	if ok, _ := effect("removeall", path, 0); !ok {
-		return &fs.PathError{Op: "removeall", Path: path, Err: ErrCrashed}
+		return &fs.PathError{Op: "removeall", Path: path, Err: errFor()}
 	}
 	return os.RemoveAll(path)
 }
